@@ -114,6 +114,19 @@ def gen_cases(ctx, n_per_kind):
             p["flux"] = float(rng.uniform(50, 500))
             lo, hi = (N // 2 - 5, N // 2 + 4)
             p["xc"], p["yc"] = float(rng.uniform(lo, hi)), float(rng.uniform(lo, hi))
+            if kind == "pixel" and i % 3 == 0:
+                # every residue of N mod 4 (the box is placed with integer arithmetic on N/2), a compact source near the box edge
+                N2 = [50, 54, 66, 52][(i // 3) % 4]
+                sc["N"] = N2
+                for k in p:
+                    if k.startswith("r_eff"):
+                        p[k] = float(rng.uniform(1.5, 2.0))
+                    if k.startswith("n"):
+                        p[k] = float(rng.uniform(2.0, 2.5))
+                side = [1, -1][(i // 3) % 2]
+                u = float(rng.uniform(4.0, 4.5))            # 4.5 … 5 px from the image centre (N−1)/2, still one pixel inside the box
+                off = u if side > 0 else -1.0 - u
+                p["xc"], p["yc"] = N2 // 2 + off, N2 // 2 + off
             sc = RC.cast32_scene(sc)
             sc["gaussian_psf"] = j in (0, 2, 3)
             cases.append(sc)
@@ -147,6 +160,30 @@ def gen_cases(ctx, n_per_kind):
             sc["gaussian_psf"] = True
             sc["psf_sigma"] = sig
             cases.append(sc)
+        if kind != "pixel":
+            # amplitudes decomposed per call (use_interp_amps=False, judged in 64-bit mode), radii far from the 1 px the table is built for
+            for i in range(max(1, n_per_kind // 4)):
+                N = [96, 80][i % 2]
+                sc = RC.gen_scene(rng, kind, N, RC.gauss_psf(11, float(rng.uniform(1.1, 1.6))), types=[["sersic", "exp"][i % 2]], mode="single", suffix="",
+                                  pos_styles=("frac",), n_range=(1.0, 3.0), interp=False)
+                p = sc["params"]
+                p["r_eff"], p["ellip"], p["flux"] = float(rng.uniform(0.75 * N / 12, N / 12)), float(rng.uniform(0, 0.6)), float(rng.uniform(50, 500))
+                p["xc"], p["yc"] = float(rng.uniform(N // 2 - 4, N // 2 + 3)), float(rng.uniform(N // 2 - 4, N // 2 + 3))
+                sc = RC.cast32_scene(sc)
+                sc["gaussian_psf"] = True
+                cases.append(sc)
+    # the renderers as a user builds them — no options at all: hybrid against Fourier with whatever defaults each class has
+    for i in range(max(3, n_per_kind // 2)):
+        N = [48, 64, 49][i % 3]
+        sc = RC.gen_scene(rng, "hybrid", N, RC.gauss_psf(11, float(rng.uniform(1.1, 1.6))), types=["sersic"], mode="single", suffix="", pos_styles=("frac",))
+        p = sc["params"]
+        p["n"] = [0.8, 1.0, 0.9, 2.0, 4.0][i % 5]
+        p["r_eff"], p["ellip"], p["flux"] = float(rng.uniform(1.5, N / 12)), float(rng.uniform(0, 0.8)), float(rng.uniform(50, 500))
+        p["xc"], p["yc"] = float(rng.uniform(N // 2 - 4, N // 2 + 3)), float(rng.uniform(N // 2 - 4, N // 2 + 3))
+        sc = RC.cast32_scene(sc)
+        sc["gaussian_psf"] = True
+        sc["defaults"] = True
+        cases.append(sc)
     return cases
 
 
@@ -158,8 +195,24 @@ def oracle_child(payload):
         try:
             N, kind, t = sc["N"], sc["kind"], sc["types"][0]
             P = sc["params"]
+            ft = jnp.float32 if sc.get("interp", True) else jnp.float64
+            J = {k: ft(v) for k, v in P.items()}
+            if sc.get("defaults"):
+                import pysersic.rendering as RD
+                import warnings
+                with warnings.catch_warnings():
+                    warnings.simplefilter("ignore")
+                    Rh = RD.HybridRenderer((N, N), jnp.asarray(np.asarray(sc["psf"], float)))
+                    Rf = RD.FourierRenderer((N, N), jnp.asarray(np.asarray(sc["psf"], float)))
+                h = np.asarray(Rh.render_source(J, t), dtype=np.float64)
+                f = np.asarray(Rf.render_source(J, t), dtype=np.float64)
+                d = float(np.abs(h - f).max()) / float(np.abs(f).max())
+                if not d <= 6e-3:
+                    fails.append(("hybrid-vs-fourier", f"HybridRenderer(shape, psf) vs FourierRenderer(shape, psf), both with their default options, n = {P['n']:.2f}: "
+                                                       f"{d:.2e} of the peak (tolerance 6e-3)"))
+                out.append(dict(fails=fails))
+                continue
             R = RC.build_renderer(sc)
-            J = {k: jnp.float32(v) for k, v in P.items()}
             img = np.asarray(R.render_source(J, t), dtype=np.float64)
             if t in ("sersic_pointsource", "pointsource"):
                 # analytic point source (circular Gaussian PSF of known width) + the reference of the Sersic part
@@ -219,7 +272,12 @@ def oracle_run(ctx, scenes):
     w = min(ctx.workers, 8)
     for s in scenes:
         s.setdefault("gaussian_psf", True)
-    res = RC.unchunk(run_children("c04", "oracle_child", [dict(scenes=ch) for ch in RC.chunked(scenes, w)], x64=False, workers=w, timeout=3000), len(scenes))
+    std = [s for s in scenes if s.get("interp", True)]
+    direct = [s for s in scenes if not s.get("interp", True)]
+    res = RC.unchunk(run_children("c04", "oracle_child", [dict(scenes=ch) for ch in RC.chunked(std, w)], x64=False, workers=w, timeout=3000), len(std)) if std else []
+    if direct:
+        res = res + RC.unchunk(run_children("c04", "oracle_child", [dict(scenes=ch) for ch in RC.chunked(direct, min(w, len(direct)))], x64=True, workers=w, timeout=3000), len(direct))
+    scenes = std + direct
     out = []
     for s, r in zip(scenes, res):
         for clause, msg in r["fails"]:
